@@ -8,6 +8,7 @@ KidsNone1 == [a \in One |-> <<>>]
 MR0_1 == [a \in One |-> 0]
 MR1_1 == [a \in One |-> 1]
 MR2_1 == [a \in One |-> 2]
+T0 == {}
 T1 == {<<"env", "t1">>}
 T2 == {<<"env", "t1">>, <<"env", "t2">>}
 TgtA == [t \in T2 |-> "A"]
@@ -36,6 +37,7 @@ SendP == {"P"}
 T1onP == [t \in T1 |-> "P"]
 TgtCP == [t \in T2 |-> IF t = <<"env", "t1">> THEN "C" ELSE "P"]
 UserOnly == {"user"}
+StoppedAndUser == {"user", "Stopped"}
 StartOnly == {"Init", "Started"}
 \* pair: P with one child C
 Pair == {"P", "C"}
@@ -44,4 +46,6 @@ KidsPair == [a \in Pair |-> IF a = "P" THEN <<"C">> ELSE <<>>]
 MR0_2 == [a \in Pair |-> 0]
 MR1_2 == [a \in Pair |-> 1]
 MRc0p1 == [a \in Pair |-> IF a = "C" THEN 0 ELSE 1]
+MRc1p0 == [a \in Pair |-> IF a = "C" THEN 1 ELSE 0]
+T1onC == [t \in T1 |-> "C"]
 ====
